@@ -713,6 +713,9 @@ pub fn extreme_ctx(rng: &mut Rng, with_time: bool) -> (CtxSpec, Vec<(String, Ty)
         let tmin = chrono::DateTime::<chrono::Utc>::MIN_UTC.fixed_offset();
         add("tmax", Value::Timestamp(tmax), Ty::Ts);
         add("tmin", Value::Timestamp(tmin), Ty::Ts);
+        // the limit instants at other offsets: local dates beyond the limit dates
+        add("tminw", Value::Timestamp(tmin.with_timezone(&chrono::FixedOffset::east_opt(-3600).unwrap())), Ty::Ts);
+        add("tmaxe", Value::Timestamp(tmax.with_timezone(&chrono::FixedOffset::east_opt(50400).unwrap())), Ty::Ts);
         let t0 = chrono::DateTime::parse_from_rfc3339("2024-02-29T23:59:59.5+05:30").unwrap();
         add("t0", Value::Timestamp(t0), Ty::Ts);
         let t1 = chrono::DateTime::parse_from_rfc3339("1970-01-01T00:00:00Z").unwrap();
